@@ -198,3 +198,59 @@ def spec_obs(sessions, maxsteps=60000, timeout=3000):
                 d = json.loads(line[4:])
                 out[d["id"]] = d["obs"]
     return out
+
+
+ERRCLASS = [("nil error", "nil"), ("type error", "type"), ("division by zero", "zerodiv"), ("index error", "index"), ("arity mismatch", "arity"),
+            ("conversion error", "conversion"), ("read error", "read")]
+MARK = "@@MARK@@"
+
+
+def judge_via_loop(sessions, cmp=("report",), maxsteps=60000, ck=None, part=None):
+    """The sessions go through the real read-eval loop (node.Loop in process, the REPL's way of running statements) with a marker
+    statement after every item; the transcript is cut at the markers and every piece becomes a recorded observation (a value -- not
+    compared --, or an error with its class and parsed report) which CalcSem judges in trace mode.  Returns a list of Verdict."""
+    reqs, by_id = [], {}
+    for s in sessions:
+        texts = [item_text(it) for it in s["items"]]
+        lines = []
+        for t in texts:
+            lines += t.split("\n") + ['write("%s")' % MARK]
+        reqs.append({"id": s["id"], "lines": lines, "doout": True, "stdin": s.get("stdin", [])})
+        by_id[s["id"]] = (s, texts)
+    real = vlib.run_loop(reqs)
+    out, tlc_in = {}, []
+    for s in sessions:
+        sid = s["id"]
+        _, texts = by_id[sid]
+        r = real.get(sid)
+        v = Verdict(s, texts, r)
+        out[sid] = v
+        if r is None or r.get("kind") != "ok":
+            v.status, v.info = "diverge", {"id": sid, "item": 0, "aspect": "kind", "expected": "the read-eval loop finishes the session", "recorded": {k: (r or {}).get(k) for k in ("kind", "msg", "site")}}
+            continue
+        segs = r["out"].split(MARK + "> nil\n")
+        if len(segs) != len(texts) + 1:
+            v.status, v.info = "diverge", {"id": sid, "item": 0, "aspect": "kind", "expected": "%d statements answered" % len(texts), "recorded": {"segments": len(segs) - 1, "out": r["out"][-600:]}}
+            continue
+        rec = []
+        for seg in segs[:-1]:
+            i = seg.find("RUNTIME ERROR : ")
+            if i < 0:
+                rec.append({"kind": "perr"} if ("Parser:" in seg or "Lexer:" in seg) else {"kind": "val", "val": {"k": "none"}, "out": [], "residue": {}})
+                continue
+            head = seg[i + len("RUNTIME ERROR : "):].split("\n")[0]
+            cls = next((c for t, c in ERRCLASS if head.startswith(t)), "other:" + head)
+            rec.append({"kind": "err", "err": cls, "out": [c for c in seg[:i]], "residue": {}, "report": parse_report(seg[i:])})
+        ts = {"id": sid, "items": [{"perr": True} if (isinstance(it, dict) and it.get("perr")) else {"ast": it} for it in s["items"]],
+              "stdin": [[c for c in l] for l in s.get("stdin", [])], "rec": rec, "cmp": list(cmp)}
+        tlc_in.append(ts)
+        v.tlc_in = ts
+    for sid, (st, d) in judge_recorded(tlc_in, maxsteps, 3000, ck, part).items():
+        if st == "accept":
+            out[sid].status, out[sid].accept = "accept", d
+        else:
+            out[sid].status, out[sid].info = "diverge", d
+    for v in out.values():
+        if v.status is None:
+            v.status, v.info = "lost", "TLC printed neither ACCEPT nor DIVERGE"
+    return [out[s["id"]] for s in sessions]
